@@ -40,6 +40,17 @@ PROBES = [
      'void out_l(long);\nlong fl(int n, int c)\n{\n\ttypedef int T[n];\n\tlong r = 0;\n\tif (c) {\n\t\tT a;\n\t\ta[0] = 1;\n\t\tr += sizeof a + a[0];\n\t}\n'
      '\tT b;\n\tb[n - 1] = 2;\n\tr += sizeof b + b[n - 1];\n\treturn r;\n}\nlong h(int n)\n{\n\ttypedef int T[n];\n\tn = 100;\n\tT x;\n\tx[0] = 5;\n\treturn sizeof x + x[0];\n}\n'
      'int main(void)\n{\n\tout_l(fl(3, 0));\n\tout_l(fl(3, 1));\n\tout_l(h(3));\n\treturn 0;\n}\n'),
+    ('vla-pointer-arithmetic-scale-zero', 'arithmetic on pointers to variable length arrays is scaled by the run-time size of the array (a[i][j], p + 1, p++, p - q)',
+     'void out_l(long);\nlong f(int n, int m)\n{\n\tint a[n][m];\n\tint (*p)[m] = a, (*q)[m] = a;\n\tlong r;\n\ta[1][2] = 5;\n\ta[0][2] = 7;\n\ta[n - 1][m - 1] = 9;\n'
+     '\tr = a[1][2] * 100 + a[0][2] * 10 + a[n - 1][m - 1];\n\tq++;\n\t++q;\n\tq -= 1;\n\tout_l((char *)(p + 2) - (char *)p);\n\tout_l(q - p);\n\tout_l((*q)[2]);\n\tout_l(&a[2] - &a[0]);\n\treturn r;\n}\n'
+     'int main(void)\n{\n\tout_l(f(3, 4));\n\tout_l(f(4, 7));\n\treturn 0;\n}\n'),
+    ('string-literal-identity', 'distinct string literals (also wide ones with a common prefix) denote distinct arrays with their own contents',
+     'void out_l(long);\nconst int *w1 = L"tab", *w2 = L"tag";\nint main(void)\n{\n\tconst unsigned short *a = u"abcd1", *b = u"abcd2";\n\tconst unsigned *c = U"xy", *d = U"xz";\n'
+     '\tconst char *e = "pq", *f = "pr";\n\tout_l(w1[2]);\n\tout_l(w2[2]);\n\tout_l(a[4]);\n\tout_l(b[4]);\n\tout_l(c[1]);\n\tout_l(d[1]);\n\tout_l(e[1]);\n\tout_l(f[1]);\n\tout_l(L"ab"[1] + u"ac"[1]);\n\treturn 0;\n}\n'),
+    ('float-to-unsigned-high-range', 'conversion of floating values in the upper half of the range of an unsigned type (>= 2^31 for unsigned, >= 2^63 for unsigned long)',
+     'void out_l(long);\ndouble d1 = 3000000000.0, d2 = 4294967295.0, d3 = 2147483648.0, d4 = 1.8e19, d5 = 9223372036854775808.0;\nfloat f1 = 3000000000.0f, f2 = 1.5e19f;\n'
+     'int main(void)\n{\n\tout_l((unsigned)d1);\n\tout_l((unsigned)d2);\n\tout_l((unsigned)d3);\n\tout_l((unsigned)f1);\n\tout_l((unsigned long)d4 >> 1);\n\tout_l((unsigned long)d5 >> 1);\n'
+     '\tout_l((unsigned long)f2 >> 1);\n\tout_l((unsigned)(d1 - d3));\n\treturn 0;\n}\n'),
     (K_COPY_PACKED, 'assignment of a packed struct with an _Alignas member (size 5, alignment 4) copies 8 bytes: access beyond both objects',
      'void out_l(long);\nstruct __attribute__((packed)) P { _Alignas(4) int a; char b; };\nstruct P g1 = { 7, 8 }, g2;\n'
      'int main(void)\n{\n\tstruct P *p = &g2, *q = &g1;\n\t*p = *q;\n\tout_l(g2.a);\n\tout_l(g2.b);\n\treturn 0;\n}\n'),
